@@ -113,6 +113,16 @@ Example C15_example :
    LSend 1 1 SOk; LStop; LNormal; LSend 1 1 SCtx].
 Proof. vm_compute. reflexivity. Qed.
 
+(* on a connected device every answer other than success is final after ONE send: non-success
+   status, ERROR_MESSAGE, a reply of the wrong type, an undecodable reply, no reply in time *)
+Example C15_connected_sends_once :
+  log (run (init true 1%N)
+    [Dial Established; Send ReaderRejects; Send ReaderErrorMessage; Send ReaderWrongType;
+     Send ReaderGarbage; Send ReaderLate; Send ReaderOk]) =
+  [LDial 1%N; LHandshake; LSend 1 1 SStatus; LSend 1 1 SStatus; LSend 1 1 SOther; LSend 1 1 SOther;
+   LSend 1 1 SCtx; LSend 1 1 SOk].
+Proof. vm_compute. reflexivity. Qed.
+
 (* the behaviour noted in DESIGN §7 (Stop during the quick back-off reports Down) is in the model *)
 Example C15_stop_in_quick_backoff :
   reports (log (run (init true 1%N) [Dial Refused; Stop false])) = [Down].
